@@ -23,10 +23,30 @@ What is modelled, line by line from `time.rs`:
 * `exit_after(p)` / `kill_after(p)`: `sleep(p)` then
   `stop(Some(format!("Exit after {}ms", p.as_millis())))` (the millisecond count TRUNCATES) / `kill()`.
 * `JoinHandle::abort` : a pending task never runs again (`cancelled`).
+* dropping the `JoinHandle` (`dropHandle i`) DETACHES the task: it runs on exactly as if the handle
+  were held; only the handle's own answer can no longer be read (`State.dropped`, a ghost set that no
+  step reads). An `AbortHandle` taken before the drop still aborts.
+* `send_interval(Duration::ZERO)`: `tokio::time::interval` asserts `period > 0` — the assertion is
+  the first thing the spawned task does, so the task PANICS at its first poll: nothing is ever sent, the
+  `JoinHandle` yields a `JoinError` that `is_panic` (`Res.panicked`). The API call itself returns normally.
+* the free functions take an `ActorCell` and a caller-chosen message type: if it is not the target's
+  (`createX`, `Timer.typed = false`), `send_message` fails with `InvalidActorType` whatever the status
+  (`Timer.canSend`): `send_after` calls the builder once and reports the error, `send_interval`
+  ticks once, calls the builder, and leaves its loop through the `break` (the only way the `break`
+  is reached while the target is still active).
+* huge periods (`Duration::MAX`, `u64::MAX` µs): the model's deadline is the exact `armed + p`. tokio
+  saturates (`sleep`: `Instant::far_future()` ≈ now + 30 years when `now + p` overflows; `Interval`:
+  `timeout.checked_add(period).unwrap_or_else(far_future)`), which differs from the exact deadline only
+  beyond 30 years of virtual time — never reached by the tie (`C12.beyond_horizon`).
 * target: `send_message` is refused once the status is ≥ Draining (`closedAt`); `stop` and `kill`
   go to one-shot ports (the first request wins) and are acted on when the target's task next runs,
   kill before stop before messages (`Target.run`); `drain()` closes admission at once, the
   backlog is still handled, then the actor exits with reason `"Drained"`.
+* target FAILURE (`fail`, `Reason.failed`): the harness casts a message on which the handler returns `Err`
+  (`Target.poison` = its position in the mailbox). When the target's task reaches it — kill and stop
+  requests come first — the messages ahead of it have been handled, the rest of the mailbox is dropped,
+  the status becomes `Stopping` then `Stopped` WITHOUT `post_stop` (a gate does not hold it), and the
+  supervisor gets `ActorFailed`. From then on the target refuses every send like any stopped target.
 * `post_stop`: when the message loop ends by a stop or a drain the status becomes `Stopping`
   (`closedAt`) and `post_stop` runs; the actor is gone — its supervisor is told, `exit` — only when
   `post_stop` returns. The harness can gate `post_stop` (`hold` arms the gate, `psrelease` opens
@@ -47,9 +67,13 @@ inductive Kind | sendAfter | interval | exitAfter | killAfter
 
 /-- Outcome of the timer's `JoinHandle`. -/
 inductive Res | pending | ok | err | cancelled
+  /-- the task panicked (`JoinError::is_panic`): `tokio::time::interval` asserts `period > 0` -/
+  | panicked
   deriving DecidableEq, Repr
 
 inductive Reason | manual | drained | killed | exitAfter (ms : Nat)
+  /-- the actor FAILED: its message handler returned `Err` (the supervisor gets `ActorFailed`) -/
+  | failed
   deriving DecidableEq, Repr
 
 /-- The reason string the supervisor sees. `exitAfter` is the documented
@@ -59,6 +83,7 @@ def Reason.render : Reason → String
   | .drained => "Drained"
   | .killed => "killed"
   | .exitAfter ms => "Exit after " ++ toString ms ++ "ms"
+  | .failed => "<failed> poison"
 
 structure Timer where
   kind : Kind
@@ -77,6 +102,10 @@ structure Timer where
   is asked for the instant of the first poll itself and is rounded up by the wheel like any other:
   an interval created off the millisecond grid reaches its loop head only at the next boundary. -/
   primed : Bool := false
+  /-- `false`: created through the free functions `ractor::time::{send_after, send_interval}` with an
+  `ActorCell` and a message type that is NOT the target's: `ActorCell::send_message` answers
+  `MessagingErr::InvalidActorType` before it even looks at the status — every send fails -/
+  typed : Bool := true
   deriving DecidableEq, Repr
 
 /-- `x` µs rounded up to a whole number of milliseconds -/
@@ -123,12 +152,23 @@ structure Target where
   /-- the message loop has ended (status `Stopping`) and `post_stop` is running: the exit
   reason to come and the instant the loop ended -/
   stopping : Option (Reason × Nat) := none
+  /-- the target is still `Starting`: it sits in (a gated) `post_start`, its message loop has not begun.
+  Sends are accepted and queue up (`Starting < Draining`, and `ACTIVE_STATES` contains `Starting`), a stop
+  request waits in its port, only the kill signal is looked at (`run_with_signal`) -/
+  starting : Bool := false
+  /-- harness: a message on which the handler returns `Err` is in the mailbox, behind this many messages -/
+  poison : Option Nat := none
+  /-- ghost: the harness sent such a message -/
+  manualFail : Bool := false
   deriving DecidableEq, Repr
 
 /-- `send_message` succeeds (status < Draining and admission open). -/
 def Target.accepts (T : Target) : Bool := T.closedAt.isNone
 /-- `ACTIVE_STATES.contains(&actor.get_status())` -/
 def Target.active (T : Target) : Bool := T.closedAt.isNone
+
+/-- `actor.send_message::<TMessage>(msg)` of this timer succeeds: right message type, status < Draining -/
+def Timer.canSend (τ : Timer) (T : Target) : Bool := T.accepts && τ.typed
 
 def Target.push (T : Target) (m : Nat × Nat) : Target := { T with mbox := T.mbox ++ [m] }
 
@@ -146,25 +186,38 @@ def Target.drain (T : Target) (now : Nat) : Target :=
   else { T with draining := true, closedAt := some (T.closedAt.getD now) }
 
 def Target.exitWith (T : Target) (r : Reason) (now : Nat) : Target :=
-  { T with exit := some (r, now), closedAt := some (T.closedAt.getD now), mbox := [], stopping := none }
+  { T with exit := some (r, now), closedAt := some (T.closedAt.getD now), mbox := [], stopping := none,
+           poison := none }
 
 /-- the message loop ends with reason `r`: status `Stopping`, the mailbox is never looked at again,
 `post_stop` starts — and returns at once unless the harness gates it -/
 def Target.endLoop (T : Target) (r : Reason) (now : Nat) : Target :=
-  if T.psGate then { T with stopping := some (r, now), closedAt := some (T.closedAt.getD now), mbox := [] }
+  if T.psGate then { T with stopping := some (r, now), closedAt := some (T.closedAt.getD now), mbox := [],
+                            poison := none }
   else T.exitWith r now
+
+/-- harness: `cast` of a message the handler fails on (accepted like any message) -/
+def Target.poisonMsg (T : Target) : Target :=
+  if T.accepts && T.poison.isNone then { T with poison := some T.mbox.length, manualFail := true } else T
 
 /-- The target's task runs until idle: kill > stop > messages (> drain marker); inside a gated
 `post_stop` only a kill is looked at. -/
 def Target.run (T : Target) (now : Nat) : Target :=
   if T.exit.isSome then T
   else if T.killReq then T.exitWith .killed now
+  else if T.starting then T
   else if T.stopping.isSome then T
   else match T.stopReq with
     | some r => T.endLoop r now
     | none =>
-      let T' := { T with handled := T.handled ++ T.mbox.map (fun m => (m.1, m.2, now)), mbox := [] }
-      if T.draining then T'.endLoop .drained now else T'
+      match T.poison with
+      | some n =>
+        -- the handler returns `Err` on the poison message: what was ahead of it has been handled, the
+        -- rest is dropped, `post_stop` is NOT run, the supervisor gets `ActorFailed`
+        ({ T with handled := T.handled ++ (T.mbox.take n).map (fun (m : Nat × Nat) => (m.1, m.2, now)), mbox := [] }).exitWith .failed now
+      | none =>
+        let T' := { T with handled := T.handled ++ T.mbox.map (fun m => (m.1, m.2, now)), mbox := [] }
+        if T.draining then T'.endLoop .drained now else T'
 
 /-- harness: `post_stop` may return; if the target sits in it, the actor exits now -/
 def Target.release (T : Target) (now : Nat) : Target :=
@@ -185,7 +238,7 @@ def ivAwait (now id a : Nat) : Nat → Timer → Target → Timer × Target
       -- tick completed; `msg()` is called, then `send_message`
       let k := τ.sentAt.length + 1
       let τ' := τ.attempt now
-      if T.accepts then
+      if τ.canSend T then
         let T' := T.push (id, k)
         -- loop head: `while ACTIVE_STATES.contains(&actor.get_status())`
         if !T'.active then (τ'.finish .ok now, T')
@@ -212,7 +265,7 @@ def fireArmed (now id a : Nat) (τ : Timer) (T : Target) : Timer × Target :=
     else (τ, T)
   | .sendAfter =>
     if τ.deadline a ≤ now then
-      if T.accepts then ((τ.attempt now).finish .ok now, T.push (id, τ.sentAt.length + 1))
+      if τ.canSend T then ((τ.attempt now).finish .ok now, T.push (id, τ.sentAt.length + 1))
       else ((τ.attempt now).finish .err now, T)
     else (τ, T)
   | .exitAfter =>
@@ -226,6 +279,8 @@ def fireArmed (now id a : Nat) (τ : Timer) (T : Target) : Timer × Target :=
 /-- One poll of timer task `id`. -/
 def fireOne (now id : Nat) (τ : Timer) (T : Target) : Timer × Target :=
   if τ.res ≠ .pending then (τ, T)
+  -- `interval(Duration::ZERO)`: "`period` must be non-zero." — the task panics at its first poll
+  else if τ.kind = .interval ∧ τ.period = 0 then (τ.finish .panicked now, T)
   else fireArmed now id (τ.armed.getD now) (τ.arm now) T
 
 structure State where
@@ -234,10 +289,14 @@ structure State where
   timers : List Timer := []
   /-- ghost: clock values at the quiescent points of a macro run -/
   visits : List Nat := []
+  /-- ghost: timers whose `JoinHandle` was dropped (the task is detached). No step reads it. -/
+  dropped : List Nat := []
   deriving DecidableEq, Repr
 
 inductive Op
   | create (k : Kind) (p : Nat)
+  /-- the free function called with a message type that is not the target's -/
+  | createX (k : Kind) (p : Nat)
   | tick (d : Nat)
   | fire (i : Nat)
   | abort (i : Nat)
@@ -246,13 +305,17 @@ inductive Op
   | mark
   /-- harness: gate `post_stop` / open the gate -/
   | hold | psrelease
+  /-- the `JoinHandle` of timer `i` is dropped -/
+  | dropHandle (i : Nat)
+  /-- harness: a message on which the target's handler fails is cast to the target -/
+  | fail
+  /-- harness: the target is (still) in its gated `post_start` / the gate opens, the message loop begins -/
+  | startHold | started
   deriving DecidableEq, Repr
 
 def step (s : State) : Op → State
-  | .create k p =>
-    -- tokio's `interval` panics on a zero period: not a timer (never generated)
-    if k = .interval ∧ p = 0 then s
-    else { s with timers := s.timers ++ [{ kind := k, period := p, created := s.now }] }
+  | .create k p => { s with timers := s.timers ++ [{ kind := k, period := p, created := s.now }] }
+  | .createX k p => { s with timers := s.timers ++ [{ kind := k, period := p, created := s.now, typed := false }] }
   | .tick d => { s with now := s.now + d }
   | .fire i =>
     match s.timers[i]? with
@@ -272,6 +335,17 @@ def step (s : State) : Op → State
   | .mark => { s with visits := s.visits ++ [s.now] }
   | .hold => { s with target := { s.target with psGate := true } }
   | .psrelease => { s with target := s.target.release s.now }
+  | .dropHandle i => { s with dropped := s.dropped ++ [i] }
+  | .fail => { s with target := s.target.poisonMsg }
+  | .startHold => { s with target := { s.target with starting := true } }
+  | .started => { s with target := { s.target with starting := false } }
+
+/-- everything but the ownership of the handles: clock, target, timers, quiescent points -/
+def State.seen (s : State) : State := { s with dropped := [] }
+
+def Op.isDrop : Op → Bool
+  | .dropHandle _ => true
+  | _ => false
 
 def steps (s : State) (ops : List Op) : State := ops.foldl step s
 
@@ -281,12 +355,20 @@ def init : State := {}
 
 inductive MOp
   | create (k : Kind) (p : Nat)
+  | createX (k : Kind) (p : Nat)
   | adv (d : Nat)
   | advAbort (d i : Nat)
   | advStop (d : Nat) | advKill (d : Nat) | advDrain (d : Nat)
   | abort (i : Nat)
   | stop | kill | drain
   | hold | psrelease
+  /-- drop the `JoinHandle` of timer `i` (at a quiescent point / after moving the clock, before the
+  time driver runs) -/
+  | dropHandle (i : Nat)
+  | advDrop (d i : Nat)
+  | fail
+  | advFail (d : Nat)
+  | startHold | started
   deriving DecidableEq, Repr
 
 def fireAll (n : Nat) : List Op := (List.range n).map Op.fire
@@ -296,6 +378,7 @@ timer tasks woken by the time driver run before the target reacts; a task made r
 harness itself (`abort`, `stop`, `kill`) runs before the time driver is polled. -/
 def expand (s : State) : MOp → List Op
   | .create k p => [.create k p, .fire s.timers.length, .target, .mark]
+  | .createX k p => [.createX k p, .fire s.timers.length, .target, .mark]
   | .adv d => [.tick d] ++ fireAll s.timers.length ++ [.target, .mark]
   | .advAbort d i => [.tick d, .abort i] ++ fireAll s.timers.length ++ [.target, .mark]
   | .advStop d => [.tick d, .stop, .target] ++ fireAll s.timers.length ++ [.target, .mark]
@@ -307,6 +390,12 @@ def expand (s : State) : MOp → List Op
   | .drain => [.drain, .target, .mark]
   | .hold => [.hold, .mark]
   | .psrelease => [.psrelease, .target, .mark]
+  | .dropHandle i => [.dropHandle i, .mark]
+  | .advDrop d i => [.tick d, .dropHandle i] ++ fireAll s.timers.length ++ [.target, .mark]
+  | .fail => [.fail, .target, .mark]
+  | .startHold => [.startHold, .mark]
+  | .started => [.started, .target, .mark]
+  | .advFail d => [.tick d, .fail, .target] ++ fireAll s.timers.length ++ [.target, .mark]
 
 def mstep (s : State) (m : MOp) : State := steps s (expand s m)
 def mrun (s : State) (ms : List MOp) : State := ms.foldl mstep s
@@ -335,7 +424,8 @@ def shotOk (τ : Timer) : Bool :=
      | .pending => τ.sentAt.isEmpty
      | .cancelled => τ.sentAt.isEmpty
      | .ok => τ.sentAt.length == 1
-     | .err => τ.sentAt.length == 1 && τ.kind == .sendAfter)
+     | .err => τ.sentAt.length == 1 && τ.kind == .sendAfter
+     | .panicked => false)
 
 /-- a finished task acted for the last time no later than it finished -/
 def finOk (now : Nat) (τ : Timer) : Bool :=
@@ -352,11 +442,23 @@ def closedOk (cl : Option Nat) (τ : Timer) : Bool :=
 /-- the handle of `send_after` tells whether the message was accepted: `Ok` ⇒ the send happened no
 later than the instant the target stopped accepting, `Err` ⇒ the target had stopped accepting -/
 def acceptOk (cl : Option Nat) (τ : Timer) : Bool :=
-  τ.kind != .sendAfter ||
+  τ.kind != .sendAfter || !τ.typed ||
     (match τ.res with
      | .ok => (match cl with | some tc => τ.sentAt.all (fun t => decide (t ≤ tc)) | none => true)
      | .err => (match cl with | some tc => τ.sentAt.all (fun t => decide (tc ≤ t)) | none => false)
      | _ => true)
+
+/-- only `send_interval(Duration::ZERO)` panics, and it never sends anything -/
+def panicOk (τ : Timer) : Bool :=
+  (τ.res != .panicked || (τ.kind == .interval && τ.period == 0)) &&
+  (!(τ.kind == .interval && τ.period == 0) || τ.sentAt.isEmpty)
+
+/-- a timer with the wrong message type tries once (the message builder runs), fails, and is done:
+`send_after` never answers `Ok`, `send_interval` leaves its loop through the `break` -/
+def mistypedOk (τ : Timer) : Bool :=
+  τ.typed || !τ.kind.sends ||
+    (decide (τ.sentAt.length ≤ 1) && (τ.res != .pending || τ.sentAt.isEmpty) &&
+      !(τ.kind == .sendAfter && τ.res == .ok))
 
 def timerOk (s : State) (τ : Timer) : Bool :=
   -- never early, measured from the API call
@@ -368,12 +470,15 @@ def timerOk (s : State) (τ : Timer) : Bool :=
   && finOk s.now τ
   && closedOk s.target.closedAt τ
   && acceptOk s.target.closedAt τ
+  && panicOk τ
+  && mistypedOk τ
 
 /-- Where an exit reason can come from. -/
 def reasonOk (s : State) (r : Reason) (te : Nat) : Bool :=
   match r with
   | .manual => s.target.manualStop
   | .drained => true
+  | .failed => true
   | .killed => s.target.manualKill ||
       s.timers.any (fun τ => τ.kind == .killAfter && τ.sentAt.any (fun t => decide (t ≤ te)))
   | .exitAfter ms =>
@@ -399,8 +504,42 @@ def closedLeOk (s : State) : Bool :=
 def targetOk (s : State) : Bool :=
   exitOk s && closedLeOk s && s.target.handled.all (handledOk s)
 
+def nodupB : List (Nat × Nat) → Bool
+  | [] => true
+  | x :: xs => !xs.contains x && nodupB xs
+
+/-- DELIVERY level: no message — identified by (timer id, k), k = the number of the message-builder
+call that made it — is handled twice (together with `handledOk`: every handled message is the one
+made by the k-th attempt of a sending timer, handled no earlier than that attempt; so a one-shot's
+message is handled at most once), and nothing is left in the mailbox of an actor that is gone. -/
+def deliveredOk (s : State) : Bool :=
+  nodupB (s.target.handled.map fun h => (h.1, h.2.1)) && (s.target.exit.isNone || s.target.mbox.isEmpty)
+
+/-- the per-timer and target clauses -/
+def ok1 (s : State) : Bool := s.timers.all (timerOk s) && targetOk s
+
+/-- DELIVERY after the close: every handled message was SENT no later than the instant the target
+stopped accepting — a timer whose target is no longer running delivers nothing -/
+def sentBeforeCloseOk (s : State) : Bool :=
+  match s.target.closedAt with
+  | none => true
+  | some tc => s.target.handled.all (fun h =>
+      match s.timers[h.1]? with
+      | some τ => (match τ.sentAt[h.2.1 - 1]? with | some t => decide (t ≤ tc) | none => true)
+      | none => true)
+
+def ok2 (s : State) : Bool := ok1 s && deliveredOk s
+
+/-- the remaining exit reasons have a source too: `"Drained"` ⇒ `drain()` was called, `<failed>` ⇒ a
+message the handler fails on was sent -/
+def reasonSrcOk (s : State) : Bool :=
+  match s.target.exit with
+  | some (.failed, _) => s.target.manualFail
+  | some (.drained, _) => s.target.draining
+  | _ => true
+
 /-- C12, clauses that hold for every schedule of the small steps. -/
-def ok (s : State) : Bool := s.timers.all (timerOk s) && targetOk s
+def ok (s : State) : Bool := ok2 s && sentBeforeCloseOk s && reasonSrcOk s
 
 /-- an interval whose target left the active states is gone within one period (wheel deadline) —
 or, if it was created after that off the millisecond grid, at the next millisecond boundary -/
@@ -416,8 +555,29 @@ def timerPromptOk (s : State) (τ : Timer) : Bool :=
   && diesOk s τ
   -- at a quiescent point every pending one-shot timer is strictly before its deadline
   && (!(τ.kind.oneShot && τ.res == .pending) || decide (s.now < ceilMs (τ.created + τ.period)))
+  -- a zero-period interval is gone (panicked, or aborted) by the first quiescent point
+  && !(τ.kind == .interval && τ.period == 0 && τ.res == .pending)
+
+/-- POSITIVE half of `exit_after` / `kill_after` (quiescent points): once a `kill_after` has acted the
+actor is gone; once an `exit_after` has acted it has at least stopped accepting (it is gone, or its
+message loop has ended and it sits in `post_stop`) — unless it is still `Starting`: there the stop
+request waits until the message loop begins -/
+def stopsOk (s : State) (τ : Timer) : Bool :=
+  (!(τ.kind == .killAfter && !τ.sentAt.isEmpty) || s.target.exit.isSome) &&
+  (!(τ.kind == .exitAfter && !τ.sentAt.isEmpty) || s.target.closedAt.isSome || s.target.starting)
+
+/-- DELIVERY, the positive half (quiescent points): as long as the target has never stopped
+accepting and its message loop runs (it is not still `Starting`), every attempt made so far by a
+(well-typed) sending timer has been handled -/
+def allHandledOk (s : State) : Bool :=
+  s.target.closedAt.isSome || s.target.starting ||
+    s.timers.zipIdx.all (fun x => !x.1.kind.sends || !x.1.typed ||
+      (List.range x.1.sentAt.length).all (fun j =>
+        (s.target.handled.map (fun h => (h.1, h.2.1))).contains (x.2, j + 1)))
+
+def okPrompt1 (s : State) : Bool := s.timers.all (timerPromptOk s)
 
 /-- C12, clauses that hold at the quiescent points of a macro run. -/
-def okPrompt (s : State) : Bool := s.timers.all (timerPromptOk s)
+def okPrompt (s : State) : Bool := okPrompt1 s && s.timers.all (stopsOk s) && allHandledOk s
 
 end Timers
